@@ -222,7 +222,7 @@ var pureExternPrefixes = []string{
 	"(*github.com/bandprotocol/chain/v3/app.BandApp).AppCodec",
 	"(*github.com/cometbft/cometbft/abci/types.ResponseQuery).",
 	"(github.com/cosmos/cosmos-sdk/types.Context).VoteInfos",
-	"github.com/cosmos/cosmos-sdk/types.VerifyAddressFormat",
+	"github.com/cosmos/cosmos-sdk/types.VerifyAddressFormat", "github.com/cosmos/cosmos-sdk/types.ValidateDenom",
 	"(github.com/ethereum/go-ethereum/accounts/abi.Arguments).Pack",
 }
 
